@@ -61,3 +61,74 @@ def register(reg):
         params={"key": "str"},
         ensures=["not (key in CD(self))", "others_kept(self, key)"],
     )
+    _register_auth(reg)
+
+
+def _register_auth(reg):
+    """Authorization.from_header (Basic): the credentials are split at the FIRST colon of the decoded text (a
+    password may contain colons, a user name cannot -- RFC 7617), and nothing escapes on any header text"""
+    import z3
+    from pyvc.values import VBuiltin, VStr, StrS, BoolS
+    B64_OK = z3.Function("b64decode_ok", StrS, BoolS)
+    B64 = z3.Function("b64decode", StrS, StrS)
+
+    def _b64decode(it, a, k, n):
+        s = it.need(a[0])
+        if not it.branch(B64_OK(s.z), "b64decode-ok"):
+            it.raise_("binascii.Error", node=n)
+        return VStr(B64(s.z), "bytes")
+    reg.overrides["std:base64.b64decode"] = lambda interp: VBuiltin("base64.b64decode", _b64decode)
+    reg.ufunc("uf_b64", ["str"], "bytes")
+    reg.spec_names["uf_b64"] = VBuiltin("spec:uf_b64", lambda it, a, k, n: VStr(B64(a[0].z), "bytes"))
+    reg.spec_names["uf_b64_ok"] = VBuiltin("spec:uf_b64_ok", lambda it, a, k, n: __import__("pyvc.values", fromlist=["VBool"]).VBool(B64_OK(a[0].z)))
+    import base64 as _b64, binascii as _ba
+
+    def _nat_ok(s):
+        try:
+            _b64.b64decode(s)
+            return True
+        except (_ba.Error, ValueError):
+            return False
+    reg.native_specs["uf_b64"] = lambda s: _b64.b64decode(s)
+    reg.native_specs["uf_b64_ok"] = _nat_ok
+    def _param_of(it, a, k, n):
+        from pyvc.values import VObj, VDict, VOpt
+        o = a[0].val if isinstance(a[0], VOpt) else a[0]
+        key = ("str", a[1].z.as_string()) if hasattr(a[1].z, "as_string") else None
+        if isinstance(o, VObj) and isinstance(o.fields.get("parameters"), VDict) and o.fields["parameters"].concrete:
+            for kk, vv in o.fields["parameters"].items.items():
+                if kk[1] == a[1].z.as_string():
+                    return vv
+        return VStr(z3.StringVal(""), "str")
+    reg.builtin_spec("param_of", _param_of, lambda o, key: ((o.parameters.get(key) if o is not None else None) or ""))
+    reg.spec("basic_text(value)", "uf_b64(value.partition(' ')[2].strip()).decode()")
+    reg.contract(
+        "werkzeug/datastructures/auth.py:Authorization.from_header", prop="C06,C07",
+        params={"cls": ("const_class", "werkzeug/datastructures/auth.py:Authorization"), "value": "Optional[str]"}, modifies=[],
+        replay=_replay_auth,
+        ensures=[
+            "implies(value is None or value == '', result is None)",
+            # Basic: user name = text before the first colon, password = everything after it
+            "implies(result is not None and result.type == 'basic', "
+            "        not (':' in param_of(result, 'username')) and "
+            "        (basic_text(value) == param_of(result, 'username') + ':' + param_of(result, 'password') or "
+            "         (basic_text(value) == param_of(result, 'username') and param_of(result, 'password') == '')))",
+        ],
+        raises={},
+    )
+
+
+def _replay_auth(reg, c, inputs):
+    from pyvc import runtime
+    import base64
+    mod = runtime.import_real("werkzeug/datastructures/auth.py")
+    nc = runtime.NativeContract(reg, c)
+    texts = ["a:b", "a:b:c", "a", ":", "a:", ":b", "ué:p:q:", ""]
+    corpus = [inputs.get("value"), None, "", "Basic", "Basic !!!", "Bearer abc", 'Digest a=b, c="d"', "Basic " + "=" * 3]
+    corpus += ["Basic " + base64.b64encode(t.encode()).decode() for t in texts]
+    corpus += ["basic  " + base64.b64encode(b"x:y:z").decode() + "  ", "Basic " + base64.b64encode(b"\xff:\xfe").decode()]
+    for v in corpus:
+        fails = nc.check_call(mod.Authorization.from_header, [v], {}, {"value": v, "cls": mod.Authorization})
+        if fails:
+            return [f"(header text {v!r}) " + f for f in fails]
+    return []
